@@ -457,6 +457,21 @@ def enumerate_data(t: T, ctx: Ctx, k: int = 1, wide: bool = True, extra_atoms: S
                         continue
                     if fresh(m):
                         yield 2, m
+        if k >= 3:
+            atoms3 = [None, 1.5, "a"]
+            for s in sk:
+                singles = list(single_mutants(s, atoms3, keys[:2], (0,)))
+                for a, b, c in itertools.combinations(singles, 3):
+                    (_, p1, m1), (_, p2, m2), (_, p3, m3) = a, b, c
+                    if not (independent(p1, p2) and independent(p1, p3) and independent(p2, p3)):
+                        continue
+                    try:
+                        m = set_at(m1, p2, copy.deepcopy(get_at(m2, p2)))
+                        m = set_at(m, p3, copy.deepcopy(get_at(m3, p3)))
+                    except (KeyError, IndexError, TypeError):
+                        continue
+                    if fresh(m):
+                        yield 3, m
 
 
 def _canon(d) -> Any:
